@@ -41,6 +41,64 @@ impl ClSuite {
     }
 }
 
+/// A small parameter set declared through the public `CLCiphersuite` trait (512-bit modulus).  Proofs made under
+/// it are never judged; it only provides "another ciphersuite was used earlier in this process" cheaply.
+#[derive(Clone, PartialEq, Eq, Debug, Serialize, Deserialize)]
+pub struct CL512Warmup {}
+
+impl CLCiphersuite for CL512Warmup {
+    const SECPARAM: u32 = 256;
+    const QSEC: u32 = 19;
+    const ln: u32 = 2 * Self::SECPARAM;
+    const lm: u32 = 256;
+    const lin: u32 = 256;
+    const le: u32 = Self::lm + 2;
+    const ls: u32 = Self::ln + Self::lm + Self::lin;
+    const RANGEPROOF_ALG: zkryptium::cl03::range_proof::RangeProof = zkryptium::cl03::range_proof::RangeProof::Boudot2000;
+    const t: u32 = 128;
+    const l: u32 = 40;
+    const s: u32 = 40;
+    const s1: u32 = 40;
+    const s2: u32 = 552;
+}
+
+impl zkryptium::schemes::algorithms::Ciphersuite for CL512Warmup {
+    type HashAlg = sha2::Sha256;
+}
+
+/// One complete run (key, issuance proof, blind signature, signature proof, verifications) under the small
+/// parameter set, on the calling thread.  Returns whether it went through (a failure is not judged).
+pub fn other_suite_first() -> bool {
+    static DONE: std::sync::OnceLock<bool> = std::sync::OnceLock::new();
+    *DONE.get_or_init(other_suite_run)
+}
+
+fn other_suite_run() -> bool {
+    catch(|| {
+        type CS = CL512Warmup;
+        let kp = KeyPair::<CL03<CS>>::generate();
+        let (pk, sk) = (kp.public_key(), kp.private_key());
+        let n = 3;
+        let bases = Bases::generate(pk, n);
+        let mut st = 0x512u64;
+        let msgs: Vec<CL03Message> = (0..n).map(|_| CL03Message::new(attr_random(&mut st))).collect();
+        let hidden = [0usize, 2];
+        let ridx = [1usize];
+        let revealed = vec![msgs[1].clone()];
+        let com = Commitment::<CL03<CS>>::commit_with_pk(&msgs, pk, &bases, Some(&hidden));
+        let zk = ZKPoK::<CL03<CS>>::generate_proof(&msgs, com.cl03Commitment(), None, pk, &bases, None, &hidden);
+        let c_issuer = CL03Commitment { value: com.cl03Commitment().value.clone(), randomness: Integer::new() };
+        let ok1 = zk.verify_proof(&c_issuer, None, pk, &bases, None, &hidden);
+        let bs = BlindSignature::<CL03<CS>>::blind_sign(pk, sk, &bases, &zk, Some(&revealed), &c_issuer, None, None, &hidden, Some(&ridx));
+        let sig = bs.unblind_sign(&com);
+        let cpk = CL03CommitmentPublicKey::generate::<CS>(Some(pk.N.clone()), Some(n));
+        let proof = PoKSignature::<CL03<CS>>::proof_gen(sig.cl03Signature(), &cpk, pk, &bases, &msgs, &hidden);
+        let ok2 = proof.proof_verify(&cpk, pk, &bases, &revealed, &hidden, n);
+        ok1 && ok2
+    })
+    .unwrap_or(false)
+}
+
 #[macro_export]
 macro_rules! with_cl {
     ($s:expr, $CS:ident => $body:expr) => {
